@@ -5,6 +5,8 @@ import (
 	"fmt"
 	"html/template"
 	"math"
+	"reflect"
+	"sort"
 	"time"
 
 	plush "github.com/gobuffalo/plush/v5"
@@ -36,6 +38,7 @@ func init() {
 	vrt.Register("C04_library_helpers", LibraryHelpers)
 	vrt.Register("C04_library_helpers_direct", LibraryHelpersDirect)
 	vrt.Register("C04_iterator_helpers_direct", IteratorHelpersDirect)
+	vrt.Register("C04_builtin_helpers_direct", BuiltinHelpersDirect)
 	vrt.Register("C04_nested_render", NestedRender)
 }
 
@@ -390,6 +393,86 @@ func IteratorHelpersDirect() {
 		for i := 0; i < 6; i++ {
 			if it.Next() == nil {
 				break
+			}
+		}
+	}
+	vrt.Cover("done")
+}
+
+// every built-in helper called from Go, as applications and other helpers do, with
+// one or two values of every kind in its value parameters (the helper context and
+// the options map are supplied as the engine supplies them). From a template the
+// surrounding call turns a panic of the helper into an error (a30d203), so the
+// template-level matrices no longer show a helper that panics: here nothing
+// stands between the helper and the executor.
+func BuiltinHelpersDirect() {
+	all := plush.Helpers.All()
+	names := make([]string, 0, len(all))
+	for k := range all {
+		names = append(names, k)
+	}
+	sort.Strings(names)
+	name := names[vrt.Choice(len(names))]
+	vrt.Note("helper", name)
+	fn := reflect.ValueOf(all[name])
+	if fn.Kind() != reflect.Func {
+		vrt.Cover("done")
+		return
+	}
+	ft := fn.Type()
+	hc := plush.HelperContext{Context: plush.NewContext()}
+	hct := reflect.TypeOf(hc)
+	mt := reflect.TypeOf(map[string]interface{}{})
+	vals := []interface{}{val(vrt.Choice(nKinds)), val(vrt.Choice(nKinds))}
+	used := 0
+	var args []reflect.Value
+	n := ft.NumIn()
+	if ft.IsVariadic() {
+		n--
+	}
+	for i := 0; i < n; i++ {
+		pt := ft.In(i)
+		switch {
+		case pt == hct || (pt.Kind() == reflect.Interface && hct.Implements(pt) && pt.NumMethod() > 0):
+			args = append(args, reflect.ValueOf(hc))
+		case pt == mt:
+			args = append(args, reflect.ValueOf(map[string]interface{}{}))
+		default:
+			if used == len(vals) {
+				vrt.Assume(false)
+			}
+			v := vals[used]
+			used++
+			if v == nil {
+				args = append(args, reflect.Zero(pt))
+			} else if reflect.TypeOf(v).AssignableTo(pt) {
+				args = append(args, reflect.ValueOf(v))
+			} else {
+				vrt.Assume(false) // the engine refuses this argument before the helper is called
+			}
+		}
+	}
+	if used < len(vals) {
+		// one path per helper and argument list: the unused value is fixed
+		for _, v := range vals[used:] {
+			_, isInt := v.(int)
+			vrt.Assume(isInt)
+		}
+	}
+	if name == "range" || name == "between" || name == "until" {
+		for _, a := range args {
+			if a.Kind() == reflect.Int {
+				vrt.Assume(a.Int() > -3 && a.Int() < 3) // the length of the sequence is C19's subject
+			}
+		}
+	}
+	res := fn.Call(args)
+	for _, r := range res {
+		if it, ok := r.Interface().(plush.Iterator); ok && it != nil {
+			for i := 0; i < 4; i++ {
+				if it.Next() == nil {
+					break
+				}
 			}
 		}
 	}
